@@ -234,3 +234,49 @@ Section Oracles.
       + intros _ Hp. rewrite A4. destruct (Hm1 Hp) as (e' & He' & Hne). exists e'. split; assumption.
   Qed.
 End Oracles.
+
+(* ---- CARv2: a prefix that still holds the whole payload walks exactly like the whole file ------- *)
+Section V2.
+  Variable hok : bytes -> bytes -> option bool.
+  Variable hdrdec : bytes -> option (list bytes * N).
+
+  Lemma v2_file_take hi lo ioff pad payload trailer k :
+    51 + blen pad + blen payload <= k ->
+    take k (v2_file hi lo ioff pad payload trailer)
+    = v2_file hi lo ioff pad payload (take (k - (51 + blen pad + blen payload)) trailer).
+  Proof.
+    intros Hk. unfold v2_file.
+    set (h := enc_v2hdr (mkv2 hi lo (51 + blen pad) (blen payload) ioff)).
+    assert (Hh : blen h = 40) by apply blen_enc_v2hdr.
+    replace (pragma ++ h ++ pad ++ payload ++ trailer) with ((pragma ++ h ++ pad ++ payload) ++ trailer)
+      by (rewrite <- !app_assoc; reflexivity).
+    assert (Hl : blen (pragma ++ h ++ pad ++ payload) = 51 + blen pad + blen payload)
+      by (rewrite !blen_app, Hh, blen_pragma; lia).
+    rewrite take_app_ge by lia. rewrite Hl, <- !app_assoc. reflexivity.
+  Qed.
+
+  Theorem c14_prefix_walk_v2_after_payload o seek roots bs w hi lo ioff pad trailer k :
+    hdrdec (enc_header (Some roots) 1) = Some (roots, 1) ->
+    blen (enc_header (Some roots) 1) <= o_maxh o -> blen (enc_header (Some roots) 1) < two63 ->
+    Forall (block_ok (o_maxs o)) bs -> Forall (fun b => cid_stream_ok (fst b)) bs ->
+    (o_trusted o = false -> Forall (hash_good hok) bs) ->
+    hdrdec pragma_body = Some ([], 2) -> 10 <= o_maxh o ->
+    hi < two64 -> lo < two64 -> ioff < two63 ->
+    51 + blen pad < two63 -> blen (enc_payload roots bs) < two63 ->
+    51 + blen pad + blen (enc_payload roots bs) <= k ->
+    exists st0 st0' steps e fin fin',
+      brp_run hok hdrdec o seek (v2_file hi lo ioff pad (enc_payload roots bs) trailer) w
+      = Ok (2, roots, st0, (steps, (e, fin))) /\
+      brp_run hok hdrdec o seek (take k (v2_file hi lo ioff pad (enc_payload roots bs) trailer)) w
+      = Ok (2, roots, st0', (steps, (e, fin'))).
+  Proof.
+    intros H1 H2 H3 H4 H5 H6 P1 P2 P3 P4 P5 P6 P7 Hk.
+    pose proof (walk_ok_intro hok hdrdec o roots bs H1 H2 H3 H4 H5 H6) as Hok.
+    assert (Hpar : v2_params_ok hdrdec o hi lo ioff pad (enc_payload roots bs)) by (repeat split; assumption).
+    rewrite v2_file_take by exact Hk.
+    destruct (brp_run_v2 hok hdrdec o seek roots bs w hi lo ioff pad trailer Hok Hpar) as (st0 & fin & Hr & _).
+    destruct (brp_run_v2 hok hdrdec o seek roots bs w hi lo ioff pad
+                (take (k - (51 + blen pad + blen (enc_payload roots bs))) trailer) Hok Hpar) as (st0' & fin' & Hr' & _).
+    cbn zeta in *. eexists st0, st0', _, _, fin, fin'. split; [exact Hr|exact Hr'].
+  Qed.
+End V2.
